@@ -560,6 +560,8 @@ def write_evidence_file(mod, tier, verif_seed, agg, wall, explore_wall, workers,
         "components": getattr(mod, "COMPONENTS", {}),
         "known_findings_hit": sorted(agg["known"].keys()),
     }
+    if hasattr(mod, "coverage_extra"):
+        coverage.update(mod.coverage_extra(agg))
     doc = {
         "property_id": mod.ID,
         "tier": tier,
